@@ -31,15 +31,18 @@ def _expand_actions(actions: Union[str, List[str]], not_action=False) -> List[st
     raise ValueError(f"Not supported type: {type(actions)}")
 
 
+def _is_action_text(value) -> bool:
+    return isinstance(value, str) or (isinstance(value, list) and all(isinstance(v, str) for v in value))
+
+
 def expand_actions(obj):
     if isinstance(obj, dict):
         for key, value in obj.items():
             if value is None:
                 continue  # or obj[key] = None
-            elif key == "Action":
-                obj[key] = _expand_actions(value)
-            elif key == "NotAction":
-                obj[key] = _expand_actions(value, not_action=True)
+            elif key in ("Action", "NotAction") and _is_action_text(value):
+                # only IAM action text is expanded; an object-valued "Action" (e.g. a WAF rule action) is walked like any other
+                obj[key] = _expand_actions(value, not_action=key == "NotAction")
             else:
                 obj[key] = expand_actions(value)
 
